@@ -557,6 +557,15 @@ func ServiceCases() []*Case {
 		}
 		out = append(out, &Case{ID: "service:named-like-generated-message:" + shape, Family: "services", Coord: "services|named-like-generated-message", P: &Program{Files: files}})
 	}
+	// a method named like the response / request message another method generates
+	for _, other := range []string{"PingResponse", "PingRequest"} {
+		f := file("t/v1", "a")
+		f.Add(&Service{Name: "Thing", BasePath: "/t/v1", Methods: []*Method{
+			{Name: "Ping", Verb: "POST", Path: "/ping", Request: []*Field{fld("v", T(TString))}, HasResponse: true, Response: []*Field{fld("w", T(TString))}},
+			{Name: other, Verb: "POST", Path: "/pong", Request: []*Field{fld("v", T(TString))}, HasResponse: true, Response: []*Field{fld("w", T(TString))}},
+		}})
+		out = append(out, &Case{ID: "service:method-named-like-generated-message:" + other, Family: "services", Coord: "services|method-named-like-generated-message", P: &Program{Files: []*File{f}}})
+	}
 	// requests made of path parameters only, and empty requests, for every verb
 	for _, verb := range []string{"GET", "POST", "PUT", "DELETE", "PATCH"} {
 		for _, shape := range []string{"only-path-params", "no-fields"} {
